@@ -46,6 +46,10 @@ T = [
 ("C06","fix: MemFS.Link acted on a source that a concurrent Remove","MemFS.Link || Remove/Rename of its source (also with a third thread creating the new name): Link added a name for an already removed file, or answered EEXIST where every sequential order gives ENOENT (source never re-validated once the destination directory was locked)"),
 ("C06","fix: MemFS.OpenFile(O_CREATE) opened a symbolic link node as a file","MemFS OpenFile(O_CREATE) || Symlink/Rename putting a symbolic link at the same name: the open returned a handle on the link node itself (Write: EBADF) instead of following the link or failing"),
 ("C06","fix: MemFS.MkdirAll returned nil without creating anything","MemFS.MkdirAll || Mkdir/OpenFile(O_CREATE)/Link/Symlink/Rename creating its first missing element: MkdirAll returned nil and created nothing below the new entry (or below a non-directory)"),
+("C08","fix: OrefaFile Read, Write, ReadDir and Readdirnames moved the offset","data races on one shared OrefaFile: Read, Write, ReadDir and Readdirnames advanced the offset / directory cursor and replaced the cached entries under the handle's READ lock"),
+("C06","fix: OrefaFS Link, Rename and OpenFile(O_CREATE) looked names up under the read lock","OrefaFS Link, Rename, OpenFile(O_CREATE) acted on lookups made under the index read lock: two winners for one name, lost nodes, index and children maps diverging, stale link counters, directory cycles (RemoveAll out of memory), and lock-order deadlocks of Rename/Link against Mkdir, MkdirAll, Remove, OpenFile(O_CREATE), CreateTemp, MkdirTemp"),
+("C07","fix: OrefaFS.Link locked the file before the directory","OrefaFS Link(/d/x,/d/y) || ReadDir on a handle of /d: Link locked the file then the directory, the listing the directory then the file (deadlock)"),
+("C07","fix: OrefaFS.RemoveAll modified directories and files without their locks","OrefaFS RemoveAll || directory listing of the same tree: nil entry dereferenced in dirEntries, children maps and link counters written without the node locks (data races)"),
 ]
 log = subprocess.check_output(['git','-C','/repo','log','--format=%h %s','adfd2e3..HEAD']).decode().strip().split('\n')
 subj = {}
